@@ -328,6 +328,8 @@ func correspondence(c *hx.Ctx) {
 	}
 	// ---- layout numbers and the Lean reader on real images -------------------------------------------
 	layoutCases(c, r)
+	// ---- reading side: system use areas (NM / SL / CE), UCS-2 names, path table lookup ----------------
+	suspCases(c, r)
 }
 
 func layoutCases(c *hx.Ctx, r *hx.Rng) {
@@ -335,7 +337,7 @@ func layoutCases(c *hx.Ctx, r *hx.Rng) {
 	for i := 0; i < n; i++ {
 		id := fmt.Sprintf("d/layout/%d", i)
 		rr := r.Fork()
-		if !c.Want(id) && !c.Want(fmt.Sprintf("d/read/%d", i)) && !c.Want(fmt.Sprintf("d/pvd/%d", i)) && !c.Want(fmt.Sprintf("d/readp/%d", i)) && !c.Want(fmt.Sprintf("d/encimg/%d", i)) {
+		if !c.Want(id) && !c.Want(fmt.Sprintf("d/read/%d", i)) && !c.Want(fmt.Sprintf("d/pvd/%d", i)) && !c.Want(fmt.Sprintf("d/readp/%d", i)) && !c.Want(fmt.Sprintf("d/encimg/%d", i)) && !c.Want(fmt.Sprintf("d/wlog/%d", i)) {
 			continue
 		}
 		// start 0 only: where the image lands for other starts is a recorded defect, not layout arithmetic
